@@ -88,11 +88,11 @@ type OpSpec struct {
 	FailedOp []string `json:"failed_when_op,omitempty"`
 	// FailedOpEmpty: the operation is given an empty (non-nil) list of failure strings -- the
 	// driver's list stays in force
-	FailedOpEmpty bool `json:"failed_when_op_empty,omitempty"`
-	Complete []string `json:"complete_patterns,omitempty"`
-	Interim  []string `json:"interim_prompt_patterns,omitempty"`
-	OptSeed  uint64   `json:"opt_seed,omitempty"` // != 0: the option list is shuffled with this seed
-	IdleUS   int64    `json:"idle_us,omitempty"`
+	FailedOpEmpty bool     `json:"failed_when_op_empty,omitempty"`
+	Complete      []string `json:"complete_patterns,omitempty"`
+	Interim       []string `json:"interim_prompt_patterns,omitempty"`
+	OptSeed       uint64   `json:"opt_seed,omitempty"` // != 0: the option list is shuffled with this seed
+	IdleUS        int64    `json:"idle_us,omitempty"`
 	// Lines is the expected result (normalised output lines) of a send, by construction.
 	Lines [][]string `json:"lines,omitempty"`
 	// WantFail (C13): per command, whether its output carries a failure string in force.
@@ -874,6 +874,10 @@ func (sr *SessionRun) do(env *Env, op *OpSpec, o []util.Option, rec *OpRec) {
 	case "resume":
 		sr.ResumeT = env.K.Now()
 		sr.Tr.Resume()
+	case "stall":
+		// everything delivered so far is the whole of the earlier exchanges (give stragglers time)
+		time.Sleep(Micro(sr.Sc.ReadDelayUS)*8 + sr.Sc.Net.LatMax*8)
+		sr.Tr.StallNow()
 	default:
 		panic("unknown op kind " + op.Kind)
 	}
